@@ -198,6 +198,98 @@ def explore_fs_histories(behs, rng: random.Random, chk: common.Check) -> List[Di
     return traces
 
 
+def _live(game, facet: str, action: str) -> bool:
+    """Do the parameters of this tour action name components that exist right now?"""
+    from . import tour
+
+    node, comp = tour.TARGET[facet]
+    n = game.simulation.network.get_node_by_hostname(node)
+    if facet == "svc" or action.startswith("node-") and action.split("-")[1] in ("shutdown", "startup", "reset"):
+        return True
+    if facet == "app":
+        return comp in n.software_manager.software or action == "node-application-install"
+    fo = n.file_system.get_folder(comp)
+    if action in ("node-file-create", "node-folder-create"):
+        return True
+    if fo is None:
+        return False
+    if action.startswith("node-folder-"):
+        return True
+    f = fo.get_file("t.txt")
+    return f is not None and not f.deleted
+
+
+def explore_tours(seed: int, chk: common.Check, visits: int, facets=("svc", "app", "fs")) -> List[Dict[str, Any]]:
+    """State generator: transition tours of spec/Lifecycle.tla (every agent operation at every reachable power x
+    component state).  Every tour step is submitted as a request (walk before, digests around it) followed by a tick;
+    at the first `visits` visits of every abstract state all agent actions aimed at the target node are probed."""
+    from . import tour
+
+    traces = []
+    for facet in facets:
+        g = tour.graph(facet)
+        eps, st = tour.tour(g, random.Random(seed), episode_len=300)
+        chk.add_mc(f"Lifecycle({facet})", g["tlc"])
+        chk.cov[f"tour_{facet}"] = st
+        cfg, idx = tour.scenario(facet)
+        amap = cfg["agents"][0]["action_space"]["action_map"]
+        label = f"tour:{facet}"
+        seen: Dict[Any, int] = {}
+        rng = random.Random(seed)
+        for ei, ep in enumerate(eps):
+            game = scenarios.build(cfg)
+            sim = game.simulation
+            numbering = rq.DigestNumbering()
+            events, meta = [], []
+            cur = numbering.num(rq.state_digest(sim))
+            start = cur
+            for a, state in zip(ep, tour.states_along(g, ep)):
+                if a == "red-compromise":
+                    tour.compromise(game, facet)
+                    cur = numbering.num(rq.state_digest(sim))
+                    events.append(rq.tick_event(cur))
+                    meta.append({"request": "red-compromise"})
+                entry = amap[idx[a]]
+                req = rq.form(entry["action"], entry["options"])
+                obs, leaf = rq.dry_run(sim, req)
+                exist = _live(game, facet, entry["action"])
+                status, reason, raised = "", False, None
+                try:
+                    resp = sim.apply_request(copy.deepcopy(req))
+                    status = getattr(resp, "status", None) or f"not-a-response:{type(resp).__name__}"
+                    data = getattr(resp, "data", None) or {}
+                    reason = bool(data.get("reason")) if isinstance(data, dict) else False
+                except Exception as e:  # noqa - an exception out of repository code is an event no module allows
+                    status = f"raised:{type(e).__name__}"
+                    raised = repr(e)
+                post = numbering.num(rq.state_digest(sim))
+                events.append(rq.req_event(obs, leaf, True, status, reason, cur, post, "na", True, exist))
+                meta.append({"request": [str(x)[:60] for x in req], "kind": entry["action"], "mutation": "wellformed", "raised": raised})
+                chk.add_case({"s": label, "k": entry["action"], "at": state, "st": status}, nontrivial=True)
+                try:
+                    game.pre_timestep()
+                    game.advance_timestep()
+                except Exception as e:  # noqa - C01's business; the history ends here
+                    chk.notes.append(f"{label}: tick raised {type(e).__name__} (reported by C01); history abandoned")
+                    break
+                cur = numbering.num(rq.state_digest(sim))
+                events.append(rq.tick_event(cur))
+                meta.append({"request": "tick"})
+                seen[state] = seen.get(state, 0) + 1
+                if seen[state] <= visits:
+                    probe_node_actions(game, tour.TARGET[facet][0], rng, numbering, cur, events, meta, chk, label, only=())
+            dig = start
+            CH = 40
+            for i in range(0, len(events), CH):
+                evs = events[i : i + CH]
+                traces.append({"cfg": {"dig": dig}, "ev": evs, "meta": {"scenario": label, "requests": meta[i : i + CH]}})
+                for e in evs:
+                    if e["ev"] == "Tick" or e["exec"]:
+                        dig = e["post"]
+        chk.cov[f"tour_{facet}_states_probed"] = len(seen)
+    return traces
+
+
 def sig_fn(tr, event, stuck):
     pos = (stuck or {}).get("pos", 1)
     m = tr["meta"]["requests"][pos - 1] if 0 < pos <= len(tr["meta"]["requests"]) else {}
@@ -238,6 +330,9 @@ def main(tier: str, seed: int) -> int:
     seqs += four if tier == "thorough" else rng.sample(four, 150)
     directed = [[st("Init"), st("MCreateFile", '"f","a.txt"')] + q + tail for q in seqs]
     traces += explore_fs_histories(fs_behs + directed, rng, chk)
+    # (quick: one facet per run, rotating with the seed - C01, C11 and C14 run all three tours on every change)
+    traces += explore_tours(seed, chk, visits=1 if tier == "quick" else 3,
+                            facets=(("svc", "app", "fs")[seed % 3],) if tier == "quick" else ("svc", "app", "fs"))
     res = tlc.validate("RequestsTrace", traces)
     common.judge_traces(chk, "Requests", traces, res, sig_fn, selftest="RequestsTrace")
     for tr in traces[:2]:
